@@ -267,8 +267,63 @@ def layer_b_case(arg):
                             % (dflags, (a or '')[:200], (b or '')[:200]))
         if dv.failures == 0 and os.path.exists(outp):
             problems.append('detect: nothing failed but an output file was left behind')
+    # ---- constraints that were NOT discovered from this file (hand-written: types the data must be repaired to,
+    # bounds, a field the data lacks): command line and library must still agree, for CSV and for parquet
+    df3 = df.copy()
+    df3['f01'] = [rng.choice([0, 1]) for _ in range(len(df3))]
+    data3 = os.path.join(d, 'hand.' + fmt)
+    if fmt == 'csv':
+        df3.to_csv(data3, index=False)
+    else:
+        df3.to_parquet(data3)
+    with contextlib.redirect_stderr(io.StringIO()), contextlib.redirect_stdout(io.StringIO()):
+        ldf3 = load_df(data3)
+    hand = {'fields': {'f01': {'type': rng.choice(['bool', 'string', 'real', 'int']), 'min': 0, 'max': rng.choice([0, 1])},
+                       'absent': {'type': 'int'}}}
+    for c in df:
+        if str(df[c].dtype).startswith(('int', 'float')) and rng.random() < 0.6:
+            hand['fields'][c] = {'type': rng.choice(['int', 'real', 'string', 'bool']), 'max_nulls': 0}
+    htdda = os.path.join(d, 'hand.tdda')
+    with open(htdda, 'w') as f:
+        json.dump(hand, f)
+    rc, out, err = cli(['verify', data3, htdda], d)
+    m = re.search(r'Constraints passing: (\d+)\s+Constraints failing: (\d+)', out.replace('\n', ' '))
+    with contextlib.redirect_stderr(io.StringIO()), contextlib.redirect_stdout(io.StringIO()):
+        try:
+            v3 = verify_df(ldf3.copy(), htdda)
+        except Exception as e:
+            v3 = None
+    if v3 is not None and (not m or (int(m.group(1)), int(m.group(2))) != (v3.passes, v3.failures)):
+        problems.append('verify with hand-written constraints %r on %s: command line says %r, library (%d, %d)'
+                        % (hand, fmt, m.groups() if m else (out + err)[-200:], v3.passes, v3.failures))
+    outp3 = os.path.join(d, 'hdet.csv')
+    rc, out, err = cli(['detect', data3, htdda, outp3], d)
+    libout3 = os.path.join(d, 'hlibdet.csv')
+    with contextlib.redirect_stderr(io.StringIO()), contextlib.redirect_stdout(io.StringIO()):
+        try:
+            detect_df(ldf3.copy(), htdda, outpath=libout3, rownumber_is_index=False, in_place=False, report='records',
+                      per_constraint=True, output_fields=[])
+            ok3 = True
+        except Exception:
+            ok3 = False
+    if ok3:
+        a = open(outp3, encoding='utf-8').read() if os.path.exists(outp3) else None
+        b = open(libout3, encoding='utf-8').read() if os.path.exists(libout3) else None
+        if a != b:
+            problems.append('detect with hand-written constraints %r on %s: output differs from the library\'s (cli %r, library %r)'
+                            % (hand, fmt, (a or '')[:200], (b or '')[:200]))
+    for f_ in (outp3, libout3):
+        if os.path.exists(f_):
+            os.remove(f_)
     # ---- error invocations leave no output and exit non-zero
-    bad = rng.choice([['verify', os.path.join(d, 'missing.csv'), tdda],
+    with open(os.path.join(d, 'broken.tdda'), 'w') as f:
+        f.write('{"fields": {"a": ')
+    bad = rng.choice([['detect', data2, os.path.join(d, 'missing.tdda'), os.path.join(d, 'x.csv')],
+                      ['detect', data2, os.path.join(d, 'missing.tdda'), os.path.join(d, 'x.parquet')],
+                      ['detect', data2, os.path.join(d, 'broken.tdda'), os.path.join(d, 'x.csv')],
+                      ['detect', os.path.join(d, 'missing.csv'), tdda, os.path.join(d, 'x.csv')],
+                      ['verify', data, os.path.join(d, 'broken.tdda')],
+                      ['verify', os.path.join(d, 'missing.csv'), tdda],
                       ['verify', data, os.path.join(d, 'missing.tdda')],
                       ['verify', '--no-such-flag', data, tdda],
                       ['detect', '--per-constraint', '--no-per-constraint', data2, tdda, os.path.join(d, 'x.csv')],
